@@ -234,7 +234,8 @@ def gen_pwlfn(rng, stream="main", shared_only=False):
     if pwl_out_size(case) >= 1:
       break
   in_form = "none" if (n == 2 and rng.random() < 0.6) else rng.choice(["r2", "r3_1", "r3_u"])
-  out_form = rng.choice(["r2", "r3_u"]) if units == 1 else "r3_u"
+  # units > 1: (batch, units, size) or the documented broadcast form (batch, 1, size) (accepted since ab7779b)
+  out_form = rng.choice(["r2", "r3_u"]) if units == 1 else rng.choice(["r3_u", "r3_u", "r3_1"])
   dtype = "float32"
   if stream == "main" and in_form != "none" and miss != "fixed" and rng.random() < 0.35:
     dtype = "float64"
